@@ -182,6 +182,8 @@ def case_reciprocity(case):
 def run(ctx):
     os.environ["VERIF_SEED"] = str(ctx.seed)
     core.warm_numba()
+    from vf import callerenv, callforms
+    callerenv.run(ctx, callforms.case_requests_plain, [{"requests": list(callforms.requests())}])
     ctx.rule = (
         "complete product of the configuration lattice (quick: 2 profile sets x 7 halos x 3 mode counts, double, plus 7 single-precision/other-grid "
         "configurations; thorough: 4 profile sets x 2 grids x 9 halos x 4 mode counts x 2 precisions); per configuration all (nx*ny)^2 reciprocity pairs "
